@@ -24,6 +24,8 @@ type eqKind struct {
 	export  func(o interface{}) ([]byte, error)
 	imp     func(c *Ctx, doc []byte) (interface{}, error) // fresh instance + Import (Redis: new keys)
 	impInto func(h interface{}, doc []byte) error         // Redis kinds: Import under new keys into an EXISTING handle
+	// impInPlace: Import into an existing handle of either backend
+	impInPlace func(h interface{}, doc []byte) error
 	equals  func(a, b interface{}) (bool, error)
 	absStr  func(o interface{}) (string, error)              // canonical parameters+payload
 	eqArgs  func(o interface{}) (string, error)              // argument block of the driver line
@@ -63,12 +65,20 @@ func pickIdx(n, where int) int {
 
 // ---- CMS ---------------------------------------------------------------------------------------
 
-func eqCMS(redis bool) eqKind {
+func eqCMS(redis bool) eqKind { return eqCMSFam(redis, 0) }
+
+// eqCMSSquare: as many rows as columns (rows and columns can be told apart only by position)
+func eqCMSSquare(redis bool) eqKind { return eqCMSFam(redis, 1) }
+
+func eqCMSFam(redis bool, fam int) eqKind {
 	name := "cms.mem"
 	if redis {
 		name = "cms.redis"
 	}
 	dims := [][2]uint{{3, 5}, {3, 6}, {4, 5}, {12, 4}} // the last one: more rows than one decimal digit counts
+	if fam == 1 {
+		dims = [][2]uint{{4, 4}, {4, 5}, {5, 4}, {5, 5}}
+	}
 	return eqKind{
 		name: name, redis: redis, nparams: 3,
 		build: func(c *Ctx, v int) interface{} { h, _ := newCMS(dims[v][0], dims[v][1], redis); return h },
@@ -156,6 +166,18 @@ func eqHLL(redis bool) eqKind {
 				return u.Import(doc, true)
 			}
 			return fmt.Errorf("not a redis handle")
+		},
+		impInPlace: func(h interface{}, doc []byte) error {
+			if x, ok := h.(hllMem); ok {
+				return x.h.Import(doc)
+			}
+			if m, ok := h.(*hllMulti); ok {
+				m.hs, m.frozen = m.hs[:1], true
+			}
+			if u := hllUnder(h.(hllHandle)); u != nil {
+				return u.Import(doc, true)
+			}
+			return fmt.Errorf("unknown handle")
 		},
 		equals: func(a, b interface{}) (bool, error) { return a.(hllHandle).Equals(b.(hllHandle)) },
 		absStr: func(o interface{}) (string, error) {
@@ -374,6 +396,9 @@ func eqTopK(redis bool) eqKind { return eqTopKFam(redis, 0) }
 // eqTopKRates: error rate and accuracy that are computed values (no short decimal text)
 func eqTopKRates(redis bool) eqKind { return eqTopKFam(redis, 1) }
 
+// eqTopKSquare: parameters that give a sketch with as many rows as columns
+func eqTopKSquare(redis bool) eqKind { return eqTopKFam(redis, 2) }
+
 func eqTopKFam(redis bool, fam int) eqKind {
 	name := "topk.mem"
 	if redis {
@@ -384,6 +409,10 @@ func eqTopKFam(redis bool, fam int) eqKind {
 		er, acc float64
 	}
 	cfgs := []cfg{{3, 0.5, 0.2}, {4, 0.5, 0.2}, {3, 0.6, 0.2}, {3, 0.5, 0.25}}
+	if fam == 2 {
+		// a square sketch inside (6 x 6)
+		cfgs = []cfg{{3, 0.5, 0.003}, {4, 0.5, 0.003}, {3, 0.6, 0.003}, {3, 0.5, 0.0031}}
+	}
 	if fam == 1 {
 		cfgs = []cfg{{3, 1.0 / 3, 0.7 / 3}, {4, 1.0 / 3, 0.7 / 3}, {3, 1.0 / 3 * (1 + 1e-9), 0.7 / 3}, {3, 1.0 / 3, 0.7 / 3 * (1 - 1e-9)}}
 	}
@@ -448,7 +477,7 @@ func eqTopKFam(redis bool, fam int) eqKind {
 
 func suiteEquals(c *Ctx) {
 	c.rep.Rule = "case = a pair of structures of one kind (10 kinds = 5 structures x 2 backends): identical histories / one extra operation / one stored entry mutated at first, middle, last position through a crafted Import / one parameter changed; both argument orders; non-trivial = pair with non-empty payload that is not identical; distinct by (kind, relation, history)"
-	kinds := []eqKind{eqCMS(false), eqCMS(true), eqHLL(false), eqHLL(true), eqBloom(false), eqBloom(true), eqCuckoo(false), eqCuckoo(true), eqTopK(false), eqTopK(true), eqTopKRates(false), eqTopKRates(true)}
+	kinds := []eqKind{eqCMS(false), eqCMS(true), eqHLL(false), eqHLL(true), eqBloom(false), eqBloom(true), eqCuckoo(false), eqCuckoo(true), eqTopK(false), eqTopK(true), eqTopKRates(false), eqTopKRates(true), eqCMSSquare(false), eqCMSSquare(true), eqTopKSquare(false), eqTopKSquare(true)}
 	rounds := c.scale(12, 120)
 	for r := 0; r < rounds; r++ {
 		for _, k := range kinds {
@@ -459,6 +488,9 @@ func suiteEquals(c *Ctx) {
 	equalsCuckooHoles(c, true)
 	equalsNumericNames(c, false)
 	equalsNumericNames(c, true)
+	equalsCuckooDuplicates(c, false)
+	equalsCuckooDuplicates(c, true)
+	equalsTopKSeparators(c)
 	for r := 0; r < c.scale(6, 40); r++ {
 		for _, redis := range []bool{false, true} {
 			equalsBuiltByMerge(c, eqHLL(redis))
@@ -742,6 +774,111 @@ func equalsCuckooHoles(c *Ctx, redis bool) {
 		eqCheck(c, k, a, b, fmt.Sprintf("holes-differ-%d", where), nil)
 		eqCheck(c, k, a, a2, fmt.Sprintf("holes-same-%d", where), nil)
 	}
+}
+
+// equalsCuckooDuplicates: buckets are multisets with positions.  One filter holds a fingerprint
+// twice in a bucket, the other holds it once next to a different one: same parameters, same
+// Length, same fill of every bucket - not equal, in either argument order.
+func equalsCuckooDuplicates(c *Ctx, redis bool) {
+	k := eqCuckoo(redis)
+	docOf := func(slots []string) []byte {
+		l := 0
+		for _, e := range slots {
+			if e != "" {
+				l++
+			}
+		}
+		return []byte(fmt.Sprintf(`{"s":2,"bs":4,"fpl":3,"l":%d,"r":10,"b":[{"s":4,"l":%d,"e":["%s"],"k":""},{"s":4,"l":0,"e":["","","",""],"k":""}],"k":"","mk":""}`, l, l, strings.Join(slots, `","`)))
+	}
+	cases := [][2][]string{
+		{{"123", "123", "", ""}, {"123", "456", "", ""}},
+		{{"123", "456", "123", ""}, {"123", "456", "456", ""}},
+		{{"", "777", "777", "888"}, {"", "777", "888", "888"}},
+	}
+	for i, pair := range cases {
+		a, e1 := k.imp(c, docOf(pair[0]))
+		b, e2 := k.imp(c, docOf(pair[1]))
+		if e1 != nil || e2 != nil || a == nil || b == nil {
+			continue
+		}
+		eqCheck(c, k, a, b, fmt.Sprintf("duplicate-vs-distinct-%d", i), nil)
+		eqCheck(c, k, b, a, fmt.Sprintf("distinct-vs-duplicate-%d", i), nil)
+	}
+	// and reached by operations: the same element twice against two elements of one bucket
+	cfg := cuckooCfg{n: 1, b: 4, fpl: 3, retries: 10, redis: redis}
+	var xs [][]byte
+	fps := map[string]bool{}
+	for i := 0; len(xs) < 2 && i < 300; i++ {
+		e := []byte(fmt.Sprintf("dup-%d", i))
+		if fp, _, _, ok := cuckooPos(e, 1, 3); ok && !fps[fp] {
+			fps[fp] = true
+			xs = append(xs, e)
+		}
+	}
+	if len(xs) == 2 {
+		ha, _ := cfg.build()
+		hb, _ := cfg.build()
+		if ha != nil && hb != nil {
+			ha.Insert(xs[0], false)
+			ha.Insert(xs[0], false)
+			hb.Insert(xs[0], false)
+			hb.Insert(xs[1], false)
+			eqCheck(c, k, ha, hb, "same-element-twice-vs-two-elements", nil)
+			eqCheck(c, k, hb, ha, "two-elements-vs-same-element-twice", nil)
+		}
+	}
+}
+
+// equalsTopKSeparators: element names are byte strings and may contain whatever a textual
+// rendering of the tracked set uses as punctuation (':', ' ', ',', digits).  k = 2, four names
+// inserted once each in every order: the sketches are equal (same multiset), the tracked pairs are
+// not - any two structures whose tracked sets differ must compare unequal.  Oracle only (names
+// with blanks do not travel through the line protocol).
+func equalsTopKSeparators(c *Ctx) {
+	names := [][]byte{[]byte("x"), []byte("y:1 z"), []byte("x:1 y"), []byte("z")}
+	perms := permutations(4)
+	type built struct {
+		t    *gostatix.TopK
+		vals string
+	}
+	var all []built
+	for _, p := range perms {
+		t := gostatix.NewTopK(2, 0.001, 0.5)
+		for _, i := range p {
+			t.Insert(names[i], 1)
+		}
+		all = append(all, built{t, fmt.Sprintf("%q", topkElems(t.Values()))})
+	}
+	bad := 0
+	for i := range all {
+		for j := range all {
+			c.rep.Cases++
+			eq, _ := all[i].t.Equals(all[j].t)
+			same := all[i].vals == all[j].vals
+			if eq && !same && bad < 3 {
+				bad++
+				c.fail([]string{"C17"}, "topk.mem-equals-wrong", fmt.Sprintf("topk.mem (names containing ':' and ' '): Equals=true although Values differ: %s vs %s", all[i].vals, all[j].vals), map[string]interface{}{"order_a": perms[i], "order_b": perms[j]})
+			}
+			if !eq && same && i == j {
+				c.fail([]string{"C17"}, "topk.mem-equals-wrong", "topk.mem: a structure is not Equal to itself: "+all[i].vals, perms[i])
+			}
+		}
+	}
+	c.op("Equals.topk.mem.separators")
+}
+
+func permutations(n int) [][]int {
+	if n == 0 {
+		return [][]int{{}}
+	}
+	var out [][]int
+	for _, p := range permutations(n - 1) {
+		for pos := 0; pos <= len(p); pos++ {
+			q := append(append(append([]int{}, p[:pos]...), n-1), p[pos:]...)
+			out = append(out, q)
+		}
+	}
+	return out
 }
 
 func topkUnder(o interface{}) *gostatix.TopKRedis {
